@@ -4,7 +4,8 @@
 //! `MockProver::verify`. Used as the arbiter R in C02 and as the trash evaluation of E1.
 //!
 //! Semantics (from the PLONK/halo2 argument, not from the code under test):
-//! * a gate polynomial must vanish on every usable row (rotations wrap modulo n);
+//! * a gate polynomial must vanish on every row of the domain (rotations wrap modulo n); cells of
+//!   the unusable rows are random in a real proof and read as poisoned here;
 //! * for a lookup, the tuple of input expressions on every usable row must equal the tuple of
 //!   table expressions on some usable row;
 //! * for every cell of a permutation column, its value equals the value of the cell the
@@ -155,10 +156,13 @@ pub fn violated_classes(prover: &MockProver<F>) -> Vec<Class> {
     };
     let mut out: HashSet<Class> = HashSet::new();
 
-    // gates
+    // gates: on every row of the domain. On the unusable rows advice cells read as poisoned (the
+    // prover fills them with randomness); an honest circuit has no enabled constraint there,
+    // because selectors cannot be assigned on those rows — but a flag read at a negative rotation
+    // can reach the first of them.
     for gate in cs.gates() {
         for poly in gate.polynomials() {
-            for row in t.usable.clone() {
+            for row in 0..t.n {
                 let e = t.eval(poly, row);
                 if e.poisoned {
                     out.insert(Class::Poisoned(gate.name().to_string()));
